@@ -51,6 +51,29 @@ def funcs(cases):
     return out
 
 
+def sweeps(reqs):
+    """continuity in the parameters: the faces of the grid function along a fine geometric sweep of the end-gradient ratio
+    r = |grad * n| / |upper - lower| (the quantity psi_spacing_separatrix_multiplier controls), through every branch switch"""
+    out = []
+    stub = types.SimpleNamespace()
+    for q in reqs:
+        n, lo, up = q["n"], q["lower"], q["upper"]
+        D = up - lo
+        rows, errs = [], 0
+        for r in q["ratios"]:
+            g = r * D / n
+            gl = g * q.get("lower_factor", 1.0) if q["which"] in ("lower", "both") else None
+            gu = g if q["which"] in ("upper", "both") else None
+            try:
+                f = Equilibrium.getSmoothMonotonicGridFunc(stub, n, lo, up, grad_lower=gl, grad_upper=gu)
+                rows.append([float(f(0.5 * k)) for k in range(0, 2 * n + 1)])
+            except Exception:
+                rows.append(None)
+                errs += 1
+        out.append(dict(rows=rows, errors=errs))
+    return out
+
+
 def eqs(reqs):
     from hypnotoad import tokamak
     out = []
@@ -79,7 +102,7 @@ def eqs(reqs):
 
 def main():
     req = json.load(sys.stdin)
-    res = {"funcs": funcs(req.get("funcs", [])), "eqs": eqs(req.get("eqs", []))}
+    res = {"funcs": funcs(req.get("funcs", [])), "eqs": eqs(req.get("eqs", [])), "sweeps": sweeps(req.get("sweeps", []))}
     print("@@JSON " + json.dumps(res, default=lambda o: o.item() if hasattr(o, "item") else str(o)))
     sys.stdout.flush()
     os._exit(0)
